@@ -24,6 +24,17 @@ use std::sync::Arc;
 
 /// request number `seq` of kind `kind` with two small parameters: the same on every node
 pub fn mkreq(kind: &str, a: u64, b: u64, seq: u64) -> Result<ClientRequest, String> {
+    // "cfgsetd:<id>:<mark|->": a publish whose history id and high-water mark were drawn by a node's own sequence
+    // (what the leader does in ConfigAsyncCmd::Add), not fabricated by the harness
+    if let Some(rest) = kind.strip_prefix("cfgsetd:") {
+        let p: Vec<&str> = rest.split(':').collect();
+        let id: u64 = p.first().and_then(|x| x.parse().ok()).ok_or("bad id")?;
+        let mark: Option<u64> = p.get(1).and_then(|x| x.parse().ok());
+        let cfg_key = format!("d{}\u{2}g{}\u{2}t{}", a % 4, a / 4 % 2, a / 8 % 2);
+        let v = json!({"ConfigSet": {"key": cfg_key, "value": format!("drawn-{}-{}", b, seq), "config_type": json!(null), "desc": json!(null),
+            "history_id": id, "history_table_id": mark, "op_time": 1_700_000_000_000i64 + seq as i64, "op_user": json!(null)}});
+        return serde_json::from_value(v).map_err(|e| e.to_string());
+    }
     let cfg_key = format!("d{}\u{2}g{}\u{2}t{}", a % 4, a / 4 % 2, a / 8 % 2);
     let content = if b % 7 == 6 { "x".repeat(3000 + b as usize) } else { format!("content-{}", b) };
     let tbl = ["T_USER", "T_CACHE"][(a % 2) as usize];
@@ -354,6 +365,11 @@ pub fn run(dir: &str) {
                         Err(_) => "err create".to_string(),
                     }
                 }
+                // the node draws the next history id the way a leader does (ConfigAsyncCmd::Add -> next_state)
+                ["draw"] => match config.send(rnacos::verif_hooks::VerifConfigSeq { draw: true }).await {
+                    Ok((id, mark)) => format!("drawn {} {}", id, mark.map(|m| m.to_string()).unwrap_or("-".to_string())),
+                    Err(_) => "err".to_string(),
+                },
                 ["dump"] => {
                     // queued fire-and-forget messages of the follower path drain while we wait on the round trips below
                     tokio::time::sleep(std::time::Duration::from_millis(60)).await;
